@@ -2,5 +2,5 @@
    ExtrOcamlBasic only: bool/option/list/prod/unit map to OCaml's, every
    number type (positive, N, Z, nat) stays the extracted datatype. *)
 From Coq Require Import ExtrOcamlBasic.
-From Errv Require Import Base.Str Base.Sexp Model.Run.
-Extraction "runner.ml" run_case.
+From Errv Require Import Base.Str Base.Sexp Model.Run Model.Run2.
+Extraction "runner.ml" run_case2.
